@@ -637,7 +637,21 @@ func genLogFor(t *rapid.T, l string, d *svc.EventTriggerDefinition, want bool) f
 			miss = rapid.IntRange(0, len(d.LogPredicates)-1).Draw(t, l+"missAny")
 		}
 	}
+	// static words first: a dynamic reference to the same head word then
+	// overwrites it with its offset, which keeps the log well formed
+	order := make([]int, 0, len(d.LogPredicates))
 	for i, p := range d.LogPredicates {
+		if !p.LogValueRef.Dynamic {
+			order = append(order, i)
+		}
+	}
+	for i, p := range d.LogPredicates {
+		if p.LogValueRef.Dynamic {
+			order = append(order, i)
+		}
+	}
+	for _, i := range order {
+		p := d.LogPredicates[i]
 		pl := fmt.Sprintf("%slp%d", l, i)
 		w := i != miss
 		o := p.LogValueRef.Offset
